@@ -87,9 +87,9 @@ def plan(tier):
                     continue
                 if not thorough and nest != 's0' and op not in ('add', 'subtract', 'multiply', 'divide', 'shift_right', 'less_than'):
                     continue
-                heavy = op in ('multiply', 'divide', 'modulo') and L.bits + R.bits > 32
-                if heavy and (not thorough or L.bits + R.bits > 64):
-                    continue
+                heavy = op in ('multiply', 'divide', 'modulo') and L.bits + R.bits >= 32
+                skip_leaf = False
+                absm = dict(abstract_mul=True, abstract_div=True) if op in ('multiply', 'divide', 'modulo') else {}
                 tag = '%s_%s_%s_%s' % (nest, op, l, r)
                 sem = builtin_sem(op, L, R, 'x', 'y')
                 Res = sem['res']
@@ -106,14 +106,16 @@ def plan(tier):
                                          % (A, sym, B, cxx(l), sym, cxx(r))))
                     jobs.append(fact_job(PROP, kname, 'rep_' + tag, 1,
                                          'unwrap(%s %s %s) has the type of the built-in expression (%s)' % (A, sym, B, Res.name)))
-                solvers = ('cadical', 'kissat') if heavy else ('minisat',)
+                solvers = ('minisat',)
                 common = dict(shim=sname, shim_types=[l, r], oracle=oracle(op, L, R), prop=PROP, via=sname,
-                              solvers=solvers, timeout=900 if heavy else 120)
+                              solvers=solvers, timeout=120)
                 c0, c1 = sem_contract(op, L, R, 0), sem_contract(op, L, R, 1)
-                jobs.append(Job('%s.L3.%s' % (PROP, tag), kname, P_PUBLIC, c0, replace=[(P_WRAPOP, c1)], layer=3, **common))
+                light = dict(common, solvers=('minisat',), timeout=120)
+                jobs.append(Job('%s.L3.%s' % (PROP, tag), kname, P_PUBLIC, c0, replace=[(P_WRAPOP, c1)], layer=3, **light, **absm))
                 jobs.append(Job('%s.L2.%s' % (PROP, tag), kname, P_WRAPOP, c1,
-                                replace=[(P_WRAPOP, c1), (P_TAGOP, c1), (P_PLAIN, c1)], layer=2, **common))
-                jobs.append(Job('%s.L1.%s' % (PROP, tag), kname, P_PLAIN, c1, layer=1, optional=True, **common))
+                                replace=[(P_WRAPOP, c1), (P_TAGOP, c1), (P_PLAIN, c1)], layer=2, **light, **absm))
+                if not skip_leaf:
+                    jobs.append(Job('%s.L1.%s' % (PROP, tag), kname, P_PLAIN, c1, layer=1, optional=True, **light, **absm))
                 n_inst += 1
     k = Kernel(kname, ''.join(src), [], 'native-tag wrappers')
     meta = {'instantiations': n_inst,
